@@ -278,7 +278,7 @@ def c18_custom(ctx, spec, tier, seed, run_engine):
     except OSError:
         pass
     counters["evaluations"] = counters.get("events_checked", 0)
-    counters["zero_sign_differences_not_judged"] = zs
+    counters["zero_sign_differences"] = zs
     res["counters"] = counters
     res["distinct"] = dict(nontrivial=len(classes), operand_class_combinations=len(classes))
     res["extra"] = dict(operand_class_combinations=sorted(classes)[:400], oracle="exact integer/rational replay, round-to-nearest-even to 64 bits",
